@@ -65,6 +65,8 @@ macro_rules! systems {
             "ring.arr3" => sys_ds::RingSys<futures_intrusive::buffer::ArrayBuf<harness::Tag, [harness::Tag; 3]>>,
             "ring.arr4" => sys_ds::RingSys<futures_intrusive::buffer::ArrayBuf<harness::Tag, [harness::Tag; 4]>>,
             "ring.fix" => sys_ds::RingSys<futures_intrusive::buffer::FixedHeapBuf<harness::Tag>>,
+            "ring.arrAl3" => sys_ds::RingSys<futures_intrusive::buffer::ArrayBuf<harness::Tag, sys_ds::Al3>>,
+            "ring.arrPad2" => sys_ds::RingSys<futures_intrusive::buffer::ArrayBuf<harness::Tag, sys_ds::Pad2>>,
             "ringz.arr0" => sys_ds::ZstRingSys<futures_intrusive::buffer::ArrayBuf<sys_ds::ZTag, [sys_ds::ZTag; 0]>>,
             "ringz.arr1" => sys_ds::ZstRingSys<futures_intrusive::buffer::ArrayBuf<sys_ds::ZTag, [sys_ds::ZTag; 1]>>,
             "ringz.arr2" => sys_ds::ZstRingSys<futures_intrusive::buffer::ArrayBuf<sys_ds::ZTag, [sys_ds::ZTag; 2]>>,
@@ -84,6 +86,7 @@ macro_rules! systems {
             "burstscript" => sys_burst::Script,
             "mpmc.capscript.fix" => sys_capscript::Fix,
             "mpmc.capscript.grow" => sys_capscript::Grow,
+            "mpmc.bigpayload" => sys_capscript::BigPayload,
             "ds.heapscript" => sys_ds::HeapScript,
             "mutex.local" => sys_mutex::Sys<NL>,
             "mutex.std" => sys_mutex::Sys<PL>,
